@@ -177,6 +177,8 @@ def oracle_batch(args):
     if args.get("tree") is not None:
         from mudslide.even_sampling import SpawnStack
         kw["spawn_stack"] = SpawnStack(copy.deepcopy(args["tree"]))
+    if args.get("max_time") is not None:
+        kw["max_time"] = float(args["max_time"])          # the OTHER way of limiting a run
     b = mudslide.BatchedTraj(model, gen, mudslide.EvenSamplingTrajectory, **kw)
     tm = b.compute()
     problems = []
@@ -462,6 +464,28 @@ def run(ctx):
     ctx.case(("batch-corpus", "born-on-exit-step"))
     if not ok:
         ctx.oracle_fail("es-child-born-finished-not-logged" if "no snapshot of its own" in text else "batch-weights", "batch", a, obs, req, text)
+    # directed: the tree is cut - by max_steps and by max_time - on the very steps on which its children are born in a free run
+    for i in range(ctx.budget(2, 12)):
+        a0 = dict(model=["simple", "dual"][i % 2], x0=-4.0, k=float(rng.uniform(8, 20)), seed=int(rng.integers(1, 10 ** 6)), dt=20.0, box=3.0,
+                  maxsteps=2500, stack=[3], quadrature="gl", mcsamples=1)
+        import mudslide
+        gen_ = mudslide.TrajGenConst(a0["x0"], a0["k"], 0, seed=a0["seed"])
+        free = mudslide.BatchedTraj(mudslide.models.scattering_models[a0["model"]](), gen_, mudslide.EvenSamplingTrajectory, samples=1, dt=20.0,
+                                    bounds=[-3.0, 3.0], max_steps=2500, spawn_stack=[3], quadrature="gl").compute()
+        births = sorted({int(round(t.hops[0]["time"] / 20.0)) for t in free.traces if t.hops} |
+                        {int(round(e["time"] / 20.0)) for t in free.traces for e in t.events.get("frustrated_hop", [])[:1]})
+        for st_ in births[:2]:
+            for how in ("max_steps", "max_time"):
+                a = dict(a0)
+                if how == "max_steps":
+                    a["maxsteps"] = st_ + 1
+                else:
+                    a["max_time"] = (st_ + 1) * 20.0
+                ok, obs, req, text = oracle_batch(a)
+                ctx.case(("batch-cut-at-birth", a["model"], how))
+                ctx.count("batches_cut_on_a_birth_step:" + how)
+                if not ok:
+                    ctx.oracle_fail("es-child-born-finished-not-logged" if "no snapshot of its own" in text else "batch-weights", "batch", a, obs, req, text)
     for i in range(ctx.budget(8, 150)):
         a = dict(model=["simple", "dual", "extended", "super"][i % 4], x0=float(-rng.uniform(3.5, 6)), k=float(rng.uniform(6, 28)),
                  seed=int(rng.integers(1, 10 ** 6)), dt=20.0, box=float(rng.uniform(2.0, 3.0)), maxsteps=2500,
